@@ -39,7 +39,9 @@ THEOREMS = [_T + n for n in (
     'C08_set_witness_distinct_before_offset', 'C08_set_witness_except_keeps_rows',
     # round 6: column names that need quoting
     'C08_names_bare_resolves', 'C08_names_splitDots_iff', 'C08_names_dotted_eq_bare_iff', 'C08_names_plan_keys',
-    'C08_names_partial_model', 'C08_names_witness_dotted', 'C08_names_witness_keys')]
+    'C08_names_partial_model', 'C08_names_witness_dotted', 'C08_names_witness_keys',
+    # round 6 (old escapes): one CTE name in sibling scopes
+    'C08_scope_siblings', 'C08_scope_witness_skip')]
 # NOT in the claim (pure congruence lemmas over abstract operands, see Props/C08.lean): C08_lemma_union_all_congr,
 # C08_lemma_union_distinct_congr, C08_lemma_cte_store_congr
 ASSUME = [
@@ -86,6 +88,14 @@ ASSUME = [
     'back-quote, `|` or a line break are not generated; all other positions where names matter (projections, pushed WHERE, table '
     'and alias names, CTE names, nested selects, set operations) are covered by the probe: one generated query in six is rewritten '
     'under one of 7 namings (c08gen.NAMINGS) and executed in a world whose tables really have these names',
+    'scopes (Model/SemScope.lean): C08_scope_siblings is about ABSTRACT sibling scopes (rows of a body, main select as a function '
+    'of the bound rows) with the rebinding of plan_cte transcribed as one current binding; it has no stream of its own — the tie is '
+    'the probe kind `scopes` (same CTE / alias name in branches of set operations, in two derived tables of a join, in nested '
+    'sub-queries / derived tables, executed on contents where the bodies differ); nested re-definitions leak outwards on the '
+    'unchanged tree (open finding cte-scope/nested-redefinition-leaks-outwards) and are outside the theorem',
+    'planner state between statements: stream plan-isolation compares the plan of a statement planned in this process (after '
+    'thousands of statements, nested join planners of derived-table operands included) with the plan from a FRESHLY IMPORTED '
+    'mindsdb_sql.planner package (new module and class objects; the parser modules are shared, a new OS process is not started)',
     'the impl-level probe (typed query generator x small table contents) is search, not proof; everything beyond the Lean '
     'fragment (pushdown into later tables of 3-4 table chains, sub-selects / CTEs as operands, CTE names colliding with real '
     'table names in every table position, IN / NOT IN / scalar sub-queries, UNION / INTERSECT / EXCEPT, nested selects, GROUP '
@@ -200,10 +210,25 @@ def cte_sigs(q, steps, f):
     return []
 
 
+SCOPE_RE = re.compile(r'^WITH (`[^`]+`|\w+) AS \(', re.I)
+
+
+def scope_sigs(q):
+    """the statement's own WITH defines a name that a NESTED scope (sub-query, derived table) defines again: the planner keeps
+    one flat name -> result dict, so the inner definition replaces the outer one for the rest of the statement (static predicate
+    on the query text; sibling scopes — branches of a set operation, two derived tables — do not match)"""
+    m = SCOPE_RE.match(q.body)
+    if m and re.search(r'\(\s*WITH %s AS \(' % re.escape(m.group(1)), q.body[m.end():], re.I):
+        return ['cte-scope/nested-redefinition-leaks-outwards']
+    return []
+
+
 def attribute(world, q, steps, f):
     sigs, a = cz.analyse(world, q, steps, g.CATALOGS[q.catalog], f['_F'], g.compare)
     if not sigs:
         sigs = cte_sigs(q, steps, f)
+    if not sigs:
+        sigs = scope_sigs(q)
     f['sigs'] = sigs
     f['pushdowns_in_plan'] = a.kinds()
     return sigs
@@ -1136,6 +1161,68 @@ def corr_names(chk, n):
         chk.samples.append(dict(corr='name-rebuild', sql=q.sql, names=nm))
 
 
+# ----------------------------------------------------------------------------- round 6 (old escapes): planner state between statements
+def fresh_plan_text(q):
+    """plan q with a FRESHLY imported copy of the package mindsdb_sql.planner (new module objects, new class objects: every
+    module-level and class-level default is in its initial state), then put the long-lived modules back"""
+    import sys, importlib, copy
+    saved = {k: v for k, v in sys.modules.items() if k == 'mindsdb_sql.planner' or k.startswith('mindsdb_sql.planner.')}
+    import mindsdb_sql
+    saved_attr = getattr(mindsdb_sql, 'planner', None)
+    for k in saved:
+        del sys.modules[k]
+    try:
+        fresh = importlib.import_module('mindsdb_sql.planner')
+        from mindsdb_sql import parse_sql
+        plan = fresh.plan_query(parse_sql(q.sql, 'mindsdb'), **copy.deepcopy(g.CATALOGS[q.catalog]))
+        return steps_text(plan.steps)
+    finally:
+        for k in [k for k in sys.modules if k == 'mindsdb_sql.planner' or k.startswith('mindsdb_sql.planner.')]:
+            del sys.modules[k]
+        sys.modules.update(saved)
+        if saved_attr is not None:
+            mindsdb_sql.planner = saved_attr
+
+
+def corr_isolation(chk, world, n):
+    """stream `plan-isolation`: a statement planned in THIS process — after thousands of other statements, nested join planners
+    included — must get the plan it gets from a freshly imported planner package that has planned nothing else; on a difference
+    both plans are executed to find the failing input"""
+    rng = common.rng_for(chk.seed, 'C08/isolation')
+    div, first, dist = 0, None, {}
+    # history: statements with derived-table operands planned by nested join planners leave state behind, if anything does
+    history = [g.gen_derived_join(rng, 'names') for _ in range(12)] + [g.gen_join(rng, 'names') for _ in range(12)]
+    for h in history:
+        try:
+            plan_for(h)
+        except Exception:
+            pass
+    for i in range(n):
+        r = rng.random()
+        q = g.gen_derived_join(rng, rng.choice(['names', 'default'])) if r < 0.45 else \
+            (g.gen_nested(rng, 'names') if r < 0.65 else g.gen_query_plain(rng))
+        chk.count(('isolation', q.sql))
+        dist[q.kind] = dist.get(q.kind, 0) + 1
+        try:
+            here = steps_text(plan_for(q).steps)
+        except Exception as e:
+            here = ['exc:%s' % type(e).__name__]
+        try:
+            alone = fresh_plan_text(q)
+        except Exception as e:
+            alone = ['exc:%s' % type(e).__name__]
+        if here != alone:
+            div += 1
+            if first is None:
+                k = next((j for j, (a, b) in enumerate(zip(here, alone)) if a != b), min(len(here), len(alone)))
+                first = dict(sql=q.sql, why='plan depends on what was planned before: step %d here %r alone %r' % (
+                    k, (here + ['-'])[k][:300], (alone + ['-'])[k][:300]))
+            # the impl-level oracle on the plan as planned here
+            probe_query(chk, world, q, (g.gen_contents_match(rng, q.tables, 3) for _ in range(8)), {})
+    chk.corr_result('plan-isolation(statement planned after a history of other statements vs planned by a freshly imported planner package)',
+                    n, div, first, dist)
+
+
 # ----------------------------------------------------------------------------- seeds (exhaustive tiny databases)
 SEEDS = [
     ('names', 'SELECT * FROM int1.ta JOIN int2.tc ON ta.id = tc.id', None),
@@ -1316,6 +1403,7 @@ def run(chk):
     corr_agg(chk, world, 300 if quick else 3000)
     corr_setop(chk, world, 240 if quick else 2500)
     corr_names(chk, 160 if quick else 1500)
+    corr_isolation(chk, world, 80 if quick else 1000)
     deep = (not quick) or bool(chk.broken())
     # 2. impl-level probe
     dist = {}
